@@ -28,6 +28,23 @@ type jsonDom struct {
 	src avSym
 }
 
+// Index: the first byte of a text is a symbol of its own (what a path finds out about it bounds the JSON types the text
+// can decode to).
+func (d *jsonDom) Index(e *Engine, st *State, x, idx AV, site *ssa.Index) (AV, bool) {
+	sy, ok := x.(avSym)
+	if !ok {
+		return nil, false
+	}
+	if k, known := st.KnownInt(idx); known && k == 0 {
+		f := avSym{tag: "first", payload: sy}
+		id := st.idOf(f)
+		st.assumeInt(id, token.GEQ, 0)
+		st.assumeInt(id, token.LEQ, 255)
+		return f, true
+	}
+	return nil, false
+}
+
 func (d *jsonDom) Load(e *Engine, st *State, p avPtr, t types.Type) AV {
 	if strings.HasPrefix(p.o.label, "global:") {
 		if t != nil && types.IsInterface(t) {
@@ -145,6 +162,7 @@ func (d *jsonDom) Call(e *Engine, st *State, site ssa.CallInstruction, callee *s
 		good.store(tgt, dv)
 		good.event(Event{Kind: "unmarshal-ok", Args: []AV{dv}, Pos: site.Pos(), Note: tname})
 		bad.store(tgt, avSym{id: e.fresh(), tag: "undecoded"})
+		bad.event(Event{Kind: "unmarshal-fail", Args: []AV{args[0]}, Pos: site.Pos(), Note: tname})
 		return []CallOut{{St: good, Res: []AV{avNil{}}}, {St: bad, Res: []AV{avSym{id: e.fresh(), tag: "decode-err", nonNil: true}}}}, true
 	}
 	return nil, false
@@ -217,6 +235,120 @@ func rulePJSONDecode(p *Program, r *Reporter) {
 		if o.Panic {
 			report("no panic", fn.Pos(), "a path of the JSON literal parser panics")
 			continue
+		}
+		if !o.Cut && o.Ret != nil && len(o.Res) == 2 && !isDefNil(o.Res[1]) {
+			// a rejection after the whole text was decoded and nothing follows it: the value is a JSON value, so the path must
+			// have found it to be none of the six carriers (a defensive default); a carrier the path never tested is rejected
+			var dv AV
+			eof := false
+			for _, ev := range o.St.Trace {
+				if ev.Kind == "decode-ok" && len(ev.Args) == 1 {
+					dv, eof = ev.Args[0], false
+				}
+				if ev.Kind == "token-eof" && dv != nil {
+					eof = true
+				}
+			}
+			// a path that took a decision the domain does not understand (on a byte of the text, say: scalars recognised by
+			// their first character before the decoder is tried) may know more about the value than its type tests show
+			for _, c := range o.St.Conds {
+				if sy, isSym := c.V.(avSym); isSym && sy.tag == "cond" {
+					dv = nil
+				}
+			}
+			if dv != nil && eof {
+				failed := map[string]bool{}
+				k := avKey(dv)
+				for _, c := range o.St.Conds {
+					switch x := c.V.(type) {
+					case avSym:
+						if !c.Truth && strings.HasPrefix(x.tag, "assert-ok:") && x.payload != nil && avKey(x.payload) == k {
+							failed[strings.TrimPrefix(x.tag, "assert-ok:")] = true
+						}
+					case avCmp:
+						if x.op == token.EQL && !c.Truth && ((avKey(x.x) == k && isDefNil(x.y)) || (avKey(x.y) == k && isDefNil(x.x))) {
+							failed["nil"] = true
+						}
+						if x.op == token.NEQ && c.Truth && ((avKey(x.x) == k && isDefNil(x.y)) || (avKey(x.y) == k && isDefNil(x.x))) {
+							failed["nil"] = true
+						}
+					}
+				}
+				// what the path knows about the first byte of the decoded text rules types out as well
+				var text AV
+				if dsy, isSym := dv.(avSym); isSym {
+					if t, isT := dsy.payload.(avTuple); isT && len(t) > 0 {
+						text = t[0]
+					}
+				}
+				excluded := func(c byte) bool { return false }
+				trimmed := false
+				if tsy, isSym := text.(avSym); isSym {
+					trimmed = tsy.tag == "ws-trimmed"
+					fs := avSym{tag: "first", payload: tsy}
+					if id, named := o.St.named[avKey(fs)]; named {
+						if f := o.St.ints[id]; f != nil {
+							excluded = func(c byte) bool { return int64(c) < f.lo || int64(c) > f.hi || f.neq[int64(c)] }
+						}
+					}
+				}
+				allExcl := func(cs string) bool {
+					for i := 0; i < len(cs); i++ {
+						if !excluded(cs[i]) {
+							return false
+						}
+					}
+					return true
+				}
+				spaceOut := trimmed || allExcl(" \t\n\r")
+				starts := map[string]string{"nil": "n", "bool": "tf", "json.Number": "-0123456789", "string": "\"", "[]any": "[", "map[string]any": "{"}
+				// json.Unmarshal of the same text into a *string (a *json.Number) failed earlier on the path: the text is not one
+				// JSON string (number), so a complete decode of it yields something else
+				for _, ev := range o.St.Trace {
+					if ev.Kind == "unmarshal-fail" && len(ev.Args) == 1 && text != nil && avKey(unwrapIface(ev.Args[0])) == avKey(text) {
+						failed[strings.TrimPrefix(ev.Note, "*")] = true
+					}
+				}
+				// a text without surrounding white space that the path found different from "false" is not the JSON value false
+				differs := func(lit string) bool {
+					if !trimmed {
+						return false
+					}
+					for _, c := range o.St.Conds {
+						cmp, isCmp := c.V.(avCmp)
+						if !isCmp || !((cmp.op == token.EQL && !c.Truth) || (cmp.op == token.NEQ && c.Truth)) {
+							continue
+						}
+						a, b := cmp.x, cmp.y
+						if _, isC := a.(avConst); isC {
+							a, b = b, a
+						}
+						if k, isC := b.(avConst); isC && k.v.Kind() == constant.String && constant.StringVal(k.v) == lit && avKey(a) == avKey(text) {
+							return true
+						}
+					}
+					return false
+				}
+				if spaceOut {
+					if (excluded('t') || differs("true")) && (excluded('f') || differs("false")) {
+						failed["bool"] = true
+					}
+					if excluded('n') || differs("null") {
+						failed["nil"] = true
+					}
+				}
+				var missing []string
+				for _, t := range []string{"nil", "bool", "json.Number", "string", "[]any", "map[string]any"} {
+					if !failed[t] && !(spaceOut && allExcl(starts[t])) {
+						missing = append(missing, t)
+					}
+				}
+				if len(missing) > 0 {
+					report("every JSON type", o.Ret.Pos(), fmt.Sprintf("a literal whose text decodes completely is rejected on a path that never found the value not to be %s: a literal of that type is a syntax error", strings.Join(missing, " / ")))
+				} else {
+					okN["every JSON type"]++
+				}
+			}
 		}
 		if o.Cut || o.Ret == nil || len(o.Res) != 2 || !isDefNil(o.Res[1]) {
 			continue
@@ -329,7 +461,7 @@ func rulePJSONDecode(p *Program, r *Reporter) {
 		r.Unknown(fn.Pos(), name, "no path of the JSON literal parser returns a node")
 		return
 	}
-	for _, k := range []string{"value", "unescape", "number precision", "trailing text", "unmarshal targets", "node", "no panic"} {
+	for _, k := range []string{"value", "unescape", "number precision", "trailing text", "unmarshal targets", "node", "no panic", "every JSON type"} {
 		key := name + " " + k
 		if f, isBad := bad[k]; isBad {
 			r.Bad(f.pos, key, f.msg)
@@ -338,7 +470,7 @@ func rulePJSONDecode(p *Program, r *Reporter) {
 		switch {
 		case okN[k] > 0:
 			r.OK(fn.Pos(), key, fmt.Sprintf("holds on each of the %d successful paths it applies to (%d successful paths in all)", okN[k], succ))
-		case k == "node" || k == "no panic":
+		case k == "node" || k == "no panic" || k == "every JSON type":
 			r.Trivial(fn.Pos(), key, "no such path")
 		case k == "unmarshal targets":
 			r.Trivial(fn.Pos(), key, "json.Unmarshal is not used")
